@@ -1,8 +1,183 @@
-(* C12 — Silence lifecycle (placeholder while the harness is brought up). *)
+(* C12 — Silence lifecycle: ids are stable, history is immutable, retention is honoured.
+   Only statements here; every proof is `exact <lemma from Proofs/SilenceProofs.v>`.
+   All theorems hold for every oracle [x] (regexp / UTF-8 / label-name validity), every configuration [c],
+   every store satisfying the bookkeeping invariant [Inv] (proved to hold along every history of local
+   operations from the empty store: c12_indexes_in_step_hist), and every instant.
+   [norm s now] is the submitted silence with a zero start replaced by now, as Set does first. *)
 From AM Require Import Base.Prelude Model.Matchers Model.Silence Proofs.SilenceProofs.
 
-Theorem c12_unknown_id_rejected c x now S s fresh sz :
-  s_id s <> "" -> st S !! s_id s = None -> s_start s <> 0 -> validate x s = true ->
-  set_op c x now S s fresh sz = (S, RErr "notfound").
-Proof. exact (set_unknown_id_rejected c x now S s fresh sz). Qed.
-Print Assumptions c12_unknown_id_rejected.
+(* CREATE: fresh id, never starts in the past, stored as submitted (unless already past retention). *)
+Theorem c12_create_fresh_not_past c x now S s0 fresh sz S' i bc :
+  set_op c x now S s0 fresh sz = (S', RSetOk i bc) -> key_ok S ->
+  st S !! s_id s0 = None -> st S !! fresh = None ->
+  let n := created_version (norm s0 now) fresh now in
+  i = fresh /\ now <= s_start n /\ s_start n = Z.max (s_start (norm s0 now)) now /\
+  st S' !! fresh = (if s_end s0 + c_ret c <? now then None else Some (mesh c n)) /\
+  forall k, k <> fresh -> st S' !! k = st S !! k.
+Proof. exact (set_create c x now S s0 fresh sz S' i bc). Qed.
+
+(* EDIT IN PLACE IFF the id is stored, the matchers are equal and the times are state-compatible:
+   active (start <= now <= end): same start second (Unix()) and new end >= now; pending: new start >= now;
+   expired: never. Otherwise the answer is the fresh id. *)
+Theorem c12_edit_in_place_iff c x now S s0 fresh sz S' i bc :
+  set_op c x now S s0 fresh sz = (S', RSetOk i bc) -> fresh <> s_id s0 ->
+  (i = s_id s0 <-> exists p, st S !! s_id s0 = Some p /\ can_update_spec (m_sil p) (norm s0 now) now) /\
+  (i <> s_id s0 -> i = fresh).
+Proof. exact (set_edit_in_place_iff c x now S s0 fresh sz S' i bc). Qed.
+
+(* ... and what an in-place edit stores (the LWW store refuses it when the clock has not moved since the
+   previous update of that silence: I5). The indexes are untouched. *)
+Theorem c12_edit_in_place_content c x now S s0 fresh sz S' i bc p :
+  set_op c x now S s0 fresh sz = (S', RSetOk i bc) -> key_ok S ->
+  st S !! s_id s0 = Some p -> can_update_spec (m_sil p) (norm s0 now) now ->
+  let s := norm s0 now in
+  let e := mesh c (with_times s (s_start s) (s_end s) now) in
+  i = s_id s0 /\
+  st S' !! s_id s0 = Some (if negb (m_exp e <? now) && (m_upd p <? now) then e else p) /\
+  (forall k, k <> s_id s0 -> st S' !! k = st S !! k) /\
+  mi S' = mi S /\ vi S' = vi S /\ ver S' = ver S.
+Proof. exact (set_update c x now S s0 fresh sz S' i bc p). Qed.
+
+(* HISTORY REWRITE: old silence unchanged except expired (end := now, start := now if pending), new id created. *)
+Theorem c12_history_rewrite_expires_old c x now S s0 fresh sz S' i bc p :
+  set_op c x now S s0 fresh sz = (S', RSetOk i bc) -> key_ok S ->
+  st S !! s_id s0 = Some p -> ~ can_update_spec (m_sil p) (norm s0 now) now ->
+  st S !! fresh = None -> marshal_ok x (m_sil p) = true ->
+  let n := created_version (norm s0 now) fresh now in
+  i = fresh /\
+  st S' !! s_id s0 = Some (if expire_applies c p now then expire_result c p now else p) /\
+  st S' !! fresh = (if s_end s0 + c_ret c <? now then None else Some (mesh c n)) /\
+  forall k, k <> fresh -> k <> s_id s0 -> st S' !! k = st S !! k.
+Proof. exact (set_replace c x now S s0 fresh sz S' i bc p). Qed.
+
+Theorem c12_expire_applies_when c p now :
+  sil_state (m_sil p) now <> SExpired -> m_upd p < now -> 0 <= c_ret c -> expire_applies c p now = true.
+Proof. exact (expire_applies_true c p now). Qed.
+
+(* UNKNOWN IDS are rejected, INVALID silences are rejected, and EVERY rejection (validation, unknown id, count
+   limit, size limit, marshalling) leaves the store — all four pieces — unchanged. *)
+Theorem c12_unknown_id_rejected c x now S s0 fresh sz :
+  s_id s0 <> "" -> st S !! s_id s0 = None ->
+  exists code, set_op c x now S s0 fresh sz = (S, RErr code) /\ (code = "invalid" \/ code = "notfound").
+Proof. exact (set_unknown_id_rejected c x now S s0 fresh sz). Qed.
+
+Theorem c12_invalid_rejected c x now S s0 fresh sz :
+  validate x (norm s0 now) = false -> set_op c x now S s0 fresh sz = (S, RErr "invalid").
+Proof. exact (set_invalid_rejected c x now S s0 fresh sz). Qed.
+
+Theorem c12_rejected_untouched c x now S s0 fresh sz S' code :
+  set_op c x now S s0 fresh sz = (S', RErr code) -> S' = S.
+Proof. exact (set_err_unchanged c x now S s0 fresh sz S' code). Qed.
+
+(* API layer: ends at/before its start or in the past -> rejected, store unchanged. *)
+Theorem c12_past_end_rejected c x now S s fresh sz :
+  s_end s <= s_start s \/ s_end s < now ->
+  exists code, api_post c x now S s fresh sz = (S, RErr code) /\ (code = "badrange" \/ code = "pastend").
+Proof. exact (api_post_past_rejected c x now S s fresh sz). Qed.
+
+Theorem c12_api_rejected_untouched c x now S s fresh sz S' code :
+  api_post c x now S s fresh sz = (S', RErr code) -> S' = S.
+Proof. exact (api_post_err_unchanged c x now S s fresh sz S' code). Qed.
+
+(* EXPIRE: unknown id rejected; idempotent; immediate. *)
+Theorem c12_expire_unknown c x now S id : st S !! id = None -> expire_op c x now S id = (S, RErr "notfound").
+Proof. exact (expire_unknown c x now S id). Qed.
+
+Theorem c12_expire_idempotent c x now S id p :
+  st S !! id = Some p -> sil_state (m_sil p) now = SExpired -> expire_op c x now S id = (S, RExpireOk []).
+Proof. exact (expire_idempotent c x now S id p). Qed.
+
+Theorem c12_expire_immediate c x now S id p :
+  key_ok S -> st S !! id = Some p -> sil_state (m_sil p) now <> SExpired ->
+  marshal_ok x (m_sil p) = true -> 0 <= c_ret c -> m_upd p < now ->
+  exists S', expire_op c x now S id = (S', RExpireOk [expire_result c p now]) /\
+    st S' = <[id := expire_result c p now]> (st S) /\ mi S' = mi S /\ vi S' = vi S /\ ver S' = ver S /\
+    forall t, now < t -> sil_state (m_sil (expire_result c p now)) t = SExpired.
+Proof. exact (expire_immediate c x now S id p). Qed.
+
+(* NO RE-ACTIVATION / IMMUTABLE HISTORY: one step, and over arbitrary histories of local operations with a
+   non-decreasing clock (hist_wf: instants non-decreasing from t, drawn uuids not in the store). *)
+Theorem c12_no_reactivation_step c x S now o k p :
+  Inv x S -> wf_local S o -> st S !! k = Some p -> sil_state (m_sil p) now = SExpired ->
+  st (fst (step c x S now o)) !! k = Some p \/
+  (o = OGC /\ m_exp p <= now /\ st (fst (step c x S now o)) !! k = None).
+Proof. exact (local_step_expired_immutable c x S now o k p). Qed.
+
+Theorem c12_no_reactivation c x h S t k p :
+  Inv x S -> hist_wf c x S t h -> st S !! k = Some p -> sil_state (m_sil p) t = SExpired ->
+  gc_before h (m_exp p) -> st (run_store c x S h) !! k = Some p.
+Proof. exact (expired_stays c x h S t k p). Qed.
+
+(* RETENTION: queryable by id while stored; stays stored across every non-GC operation and across a GC before
+   ExpiresAt; GC removes exactly ExpiresAt <= now; pending/active never collected (retention > 0). *)
+Theorem c12_queryable_by_id x now S id ids :
+  query_op x now S [QIDs (id :: ids)] = RQuery (omap (fun k => m_sil <$> st S !! k) (id :: ids)) (ver S).
+Proof. exact (query_ids_exact x now S id ids). Qed.
+
+Theorem c12_query_by_state_exact x now S sts :
+  Inv x S ->
+  exists l, query_op x now S [QState sts] = RQuery l (ver S) /\
+    forall s, s ∈ l <-> exists k e, st S !! k = Some e /\ m_sil e = s /\ sil_state s now ∈ sts.
+Proof. exact (query_state_exact x now S sts). Qed.
+
+Theorem c12_queryable_until_retention c x S now o k :
+  Inv x S -> wf_local S o -> is_Some (st S !! k) ->
+  is_Some (st (fst (step c x S now o)) !! k) \/
+  (o = OGC /\ exists e, st S !! k = Some e /\ m_exp e <= now).
+Proof. exact (local_step_keeps c x S now o k). Qed.
+
+Theorem c12_gc_exact x now S k :
+  Inv x S ->
+  st (fst (gc_op now S)) !! k =
+  match st S !! k with Some e => if now <? m_exp e then Some e else None | None => None end.
+Proof. exact (gc_exact x now S k). Qed.
+
+Theorem c12_gc_never_live x c now S k e :
+  Inv x S -> st S !! k = Some e -> m_exp e = s_end (m_sil e) + c_ret c -> 0 < c_ret c ->
+  sil_state (m_sil e) now <> SExpired ->
+  (sil_state (m_sil e) now = SPending -> s_start (m_sil e) <= s_end (m_sil e)) ->
+  st (fst (gc_op now S)) !! k = Some e.
+Proof. exact (gc_never_live x c now S k e). Qed.
+
+(* INDEXES IN STEP: after GC — and after every local operation — st, mi and vi hold the same ids (vi without
+   duplicates, versions bounded by the counter). PARTIAL: snapshot reload (OReload) is outside [wf_local]; its
+   bookkeeping is tied by the correspondence runs only. *)
+Theorem c12_indexes_in_step_gc x now S : Inv x S -> Inv x (fst (gc_op now S)).
+Proof. exact (gc_preserves_inv x now S). Qed.
+
+Theorem c12_indexes_in_step_hist_partial c x h S t : Inv x S -> hist_wf c x S t h -> Inv x (run_store c x S h).
+Proof. exact (local_hist_inv c x h S t). Qed.
+
+Theorem c12_inv_empty x : Inv x empty_store.
+Proof. exact (Inv_empty x). Qed.
+
+(* ---- non-vacuity ---- *)
+Definition ex_x : ext := mkExt (fun _ _ => false) (fun _ => true) (fun _ => false) (fun _ => true) (fun _ => true).
+Definition ex_c : cfg := mkCfg 3600 0 0.
+Definition ex_s := mkSil "" [[mkM MEq "a" "1"]] 0 2000 0 "alice" "c" [].
+Definition ex_h : list (Z * op) :=
+  [ (1000, OSet ex_s "id0" 50);                                                   (* create *)
+    (1100, OSet (mkSil "id0" [[mkM MEq "a" "1"]] 1000 3000 0 "bob" "longer" []) "id1" 50);  (* edit in place *)
+    (1200, OSet (mkSil "id0" [[mkM MEq "a" "2"]] 1000 3000 0 "bob" "other" []) "id1" 50);   (* replace *)
+    (1300, OExpire "id1");
+    (1300, OExpire "id1");
+    (4800, OGC);
+    (4901, OGC) ].
+Example c12_history_nonvacuous :
+  snd (run ex_c ex_x empty_store ex_h) =
+  [ RSetOk "id0" [mkMsil (mkSil "id0" [[mkM MEq "a" "1"]] 1000 2000 1000 "alice" "c" []) 5600];
+    RSetOk "id0" [mkMsil (mkSil "id0" [[mkM MEq "a" "1"]] 1000 3000 1100 "bob" "longer" []) 6600];
+    RSetOk "id1" [mkMsil (mkSil "id0" [[mkM MEq "a" "1"]] 1000 1200 1200 "bob" "longer" []) 4800;
+                  mkMsil (mkSil "id1" [[mkM MEq "a" "2"]] 1200 3000 1200 "bob" "other" []) 6600];
+    RExpireOk [mkMsil (mkSil "id1" [[mkM MEq "a" "2"]] 1200 1300 1300 "bob" "other" []) 4900];
+    RExpireOk [];
+    RGC 1%nat false;
+    RGC 1%nat false ] /\
+  hist_wf ex_c ex_x empty_store 0 ex_h.
+Proof. vm_compute. repeat split; try discriminate; try reflexivity. Qed.
+
+Print Assumptions c12_edit_in_place_iff.
+Print Assumptions c12_history_rewrite_expires_old.
+Print Assumptions c12_no_reactivation.
+Print Assumptions c12_indexes_in_step_hist_partial.
+Print Assumptions c12_gc_never_live.
